@@ -264,9 +264,9 @@ func raceC14(p *core.PostCtx) {
 		p.Incon = append(p.Incon, "race-instrumented binary "+bin+" is missing (build it with ./check build)")
 		return
 	}
-	pairs := 480
+	pairs := 1200
 	if p.Tier == "thorough" {
-		pairs = 12000
+		pairs = 40000
 	}
 	nproc := 12
 	per := (pairs + nproc - 1) / nproc
